@@ -54,6 +54,12 @@ class Run:
             self.discharged = good
             if not ok:
                 self.broken.append("axiom audit failed: " + log[-300:])
+            if self.tier == "thorough":
+                # independent re-check of the compiled module (and everything it imports) by leanchecker
+                rc, out = core.sh(["lake", "env", "leanchecker", self.module], cwd=core.LEAN, timeout=3000)
+                self.stats["leanchecker"] = "ok" if rc == 0 else "FAILED"
+                if rc != 0:
+                    self.broken.append("leanchecker rejects %s: %s" % (self.module, out[-300:]))
         return b["cargo"] and b["driver_build"]
 
     # ---- step 3: correspondence
